@@ -95,8 +95,20 @@ def run(ctx, prog):
     d1(ctx, prog)
     n2 = d2(ctx, prog)
     n3 = infnan_rule(ctx, prog, 'C04-D3', {PART})
-    counter = [0]
-    n4 = axes.check_family(ctx, prog, 'C04-D4', [PART])
+    typed = []
+    n4 = axes.check_family(ctx, prog, 'C04-D4', [PART], collect=typed)
+    # D2 (order symmetry / no second selection): inside a metric the class axis is consumed whole
+    seen = set()
+    for ci, ty in typed:
+        for fn, node, ax in ty.class_axis_selections:
+            if fn.name == '_compute_metric':
+                k = f'{fn.key}::{norm(node)[:80]}'
+                if k not in seen:
+                    seen.add(k)
+                    ctx.fail('C04-D2', k, f'the metric selects along the class axis (`{norm(node)[:60]}`): classes must enter the statistic only through reductions over '
+                                          f'all non-empty classes (a second selection or a fixed position changes which classes count, or makes the result depend on their order)', fn.where(node))
+    if not seen:
+        ctx.ok('C04-D2', f'{PART}::_compute_metric class axis', 'no metric selects along the class axis: it is consumed whole by reductions / aligned elementwise operations')
     # constant class positions (order dependence)
     ctx.floor('metric overrides', n2, 3)
     ctx.floor('_compute functions with divisions (partitioned)', n3, 1)
